@@ -465,6 +465,10 @@ def srv_alphabet():
     A['u_badmd_len2'] = lambda i, c: env(i, m=U, b='q', src='cliX', dst='srv', md=[['k-bin', '*=']], c=c)
     A['s_open_badmd_len1'] = lambda i, c: env(i, m=S, src='cliX', dst='srv', md=[['x-bin', '%']], c=c)
     A['s_open_badmd_len5'] = lambda i, c: env(i, m=S, src='cliX', dst='srv', md=[['x-bin', 'QUJD%']], c=c)
+    # metadata keys nobody writes on purpose: empty, a lone suffix, an HTTP/2 pseudo-header, upper case
+    A['u_emptykey'] = lambda i, c: env(i, m=U, b='q', src='cliX', dst='srv', md=[['k', 'v'], ['', 'nokey']], c=c)
+    A['s_open_emptykey'] = lambda i, c: env(i, m=S, src='cliX', dst='srv', md=[['', 'nokey'], ['k', 'v']], c=c)
+    A['u_oddkeys'] = lambda i, c: env(i, m=U, b='q', src='cliX', dst='srv', md=[['-bin', 'QUJD'], [':path', '/x'], ['UPPER', 'V']], c=c)
     A['s_open'] = lambda i, c: env(i, m=S, src='cliX', dst='srv', c=c)
     A['s_open_ss'] = lambda i, c: env(i, m='/verif.Svc/SS', src='cliX', dst='srv', c=c)
     A['s_open_baddst'] = lambda i, c: env(i, m=S, src='cliX', dst='nobody', c=c)
@@ -572,6 +576,8 @@ def cli_alphabet():
     # undecodable header metadata on an envelope that also ends the call (trailers-only replies)
     A['badmd_hdr_close_err'] = lambda i, m: env(i, m=m, md=[['h-bin', '***']], st=(7, 'denied'), t=[])
     A['badmd_hdr_close_ok'] = lambda i, m: env(i, m=m, md=[['h-bin', '***']], st=(0, 'OK'), t=[])
+    A['hdr_emptykey'] = lambda i, m: env(i, m=m, b='x', md=[['k', 'v'], ['', 'nokey']])
+    A['trailer_emptykey'] = lambda i, m: env(i, m=m, st=(0, 'OK'), t=[['', 'nokey'], [':status', '200']])
     A['rawbody'] = lambda i, m: env(i, m=m, braw='@7:%d' % (i + 11))
     A['body_empty'] = lambda i, m: env(i, m=m, b='')                                    # a message that encodes to zero bytes
     A['body_empty_trailer'] = lambda i, m: env(i, m=m, b='', t=[])
